@@ -334,7 +334,7 @@ func genImporter(e *vh.Env) *config {
 		c.Chunk = []int{16384, 65536, 262144}[r.Intn(3)]
 		c.Len = r.Intn(e.Pick(100000, 600000))
 		if e.Thorough() && r.Intn(10) == 0 {
-			c.Len = r.Intn(2200000)
+			c.Len = r.Intn(1200000)
 		}
 	}
 	if r.Intn(6) == 0 && c.Chunk > 0 { // exact multiples of the chunk size
